@@ -4,6 +4,11 @@
 // With the build tag "verif" off (the default) every function in this package is an empty, inlinable no-op.
 package verifhook
 
+import (
+	"os"
+	"path/filepath"
+)
+
 // JoinRecvFn, when set, is called in the join goroutine right after it has taken one message (or observed the
 // close) from one of its input channels. side: 0 = left, 1 = right.
 var JoinRecvFn func(join interface{}, side int, ok bool, metadata bool, isErr bool)
@@ -38,4 +43,54 @@ func JSONReader(firstLine int, lines int) {
 	if JSONReaderFn != nil {
 		JSONReaderFn(firstLine, lines)
 	}
+}
+
+// Crash ends the process at once - as a kill would: no deferred function runs - when the environment variable
+// VERIF_CRASH_AT names this point.
+func Crash(point string) {
+	if os.Getenv("VERIF_CRASH_AT") == point {
+		os.Exit(97)
+	}
+}
+
+// CrashTornWrite, when VERIF_CRASH_AT is "<point>:zero", "<point>:half" or "<point>:allbutlast", writes that prefix of
+// data to path and ends the process: a kill in the middle of writing the file.
+func CrashTornWrite(point string, path string, data []byte) {
+	at := os.Getenv("VERIF_CRASH_AT")
+	n := -1
+	switch at {
+	case point + ":zero":
+		n = 0
+	case point + ":half":
+		n = len(data) / 2
+	case point + ":allbutlast":
+		n = len(data) - 1
+	}
+	if n < 0 {
+		return
+	}
+	if n > len(data) {
+		n = len(data)
+	}
+	f, err := os.Create(path)
+	if err == nil {
+		f.Write(data[:n])
+		f.Close()
+	}
+	os.Exit(97)
+}
+
+// CrashTruncating, when VERIF_CRASH_AT names this point, truncates every regular file below dir to half its size and
+// ends the process: a kill in the middle of a download or of unpacking an archive.
+func CrashTruncating(point string, dir string) {
+	if os.Getenv("VERIF_CRASH_AT") != point {
+		return
+	}
+	filepath.Walk(dir, func(path string, info os.FileInfo, err error) error {
+		if err == nil && info.Mode().IsRegular() {
+			os.Truncate(path, info.Size()/2)
+		}
+		return nil
+	})
+	os.Exit(97)
 }
